@@ -89,9 +89,9 @@ Inductive case :=
 | CRawSet (path : N) (dbg : bool) (len : N) (words : list N) (i : N) (v : bool) (o : ires unit) (calls : list bcall)
 (* one mapped file, one view type, every requested offset *)
 | CMapped (dbg : bool) (file : list N) (ty : vtype) (views : list (N * mobs))
-(* IntVectorMapper (opt: inside a MappedOption) at offset [off] of the file whose width element is above 64,
-   a width no serializer writes: get(index) for some index < len *)
-| CMGet (dbg : bool) (file : list N) (opt : bool) (off : N) (gets : list (N * ires unit))
+(* every IntVectorMapper (opt: inside a MappedOption) that `new` returned on the file: offset, len(), width(), and
+   get(index) at extreme indexes below len() (the length element is whatever the file holds) *)
+| CMGet (dbg : bool) (file : list N) (opt : bool) (probes : list (N * N * N * list (N * ires unit)))
 (* the batch's process died: status = signal number, or 1000 + exit code, or 2000 = result file incomplete *)
 | CDied (kind : N) (status : N).
 
@@ -312,11 +312,30 @@ Definition spec_mview (file : list N) (ty : vtype) (o : N * mobs) : bool :=
   | MPanic k => negb (k =? 9)
   end.
 
-Definition model_mget (m : mode) (file : list N) (opt : bool) (off : N) (gets : list (N * ires unit)) : bool :=
+Definition mprobe : Type := (N * N * N * list (N * ires unit))%type.
+
+Fixpoint int_of_view (v : view) : option imapper :=
+  match v with
+  | VwInt i => Some i
+  | VwOpt o => match mo_data o with Some v' => int_of_view v' | None => None end
+  | _ => None
+  end.
+
+Definition model_mget (m : mode) (file : list N) (opt : bool) (p : mprobe) : bool :=
+  let '(off, len, width, gets) := p in
   match view_new m (if opt then TyOpt TyInt else TyInt) file off with
-  | VOk v => forallb (fun g => res_agree unit_eqb (touch_model m v 3 (fst g)) (snd g)) gets
+  | VOk v =>
+      match int_of_view v with
+      | Some i => (im_len i =? len) && (im_width i =? width)
+                  && forallb (fun g => res_agree unit_eqb (runit (im_get_w m i (fst g))) (snd g)) gets
+      | None => false
+      end
   | _ => false
   end.
+(* spec side: an accepted view has a width the 65-entry mask table covers, and no get ends in the hook *)
+Definition spec_mget (p : mprobe) : bool :=
+  let '(off, len, width, gets) := p in
+  (1 <=? width) && (width <=? 64) && forallb (fun g => not9 (snd g)) gets.
 
 Definition check (c : case) : N :=
   match c with
@@ -344,8 +363,8 @@ Definition check (c : case) : N :=
             && not9 o && forallb spec_bcall calls)
   | CMapped dbg file ty views =>
       code (forallb (model_mview (mode_of dbg) file ty) views) (forallb (spec_mview file ty) views)
-  | CMGet dbg file opt off gets =>
-      code (model_mget (mode_of dbg) file opt off gets) (forallb (fun g => not9 (snd g)) gets)
+  | CMGet dbg file opt probes =>
+      code (forallb (model_mget (mode_of dbg) file opt) probes) (forallb spec_mget probes)
   | CDied _ _ => 3
   end.
 
@@ -368,10 +387,7 @@ Definition explain (c : case) : list bool :=
       res_agree unit_eqb (runit st) o :: map (model_bcall (sp_of path) (mode_of dbg) (bv_from_raw r')) calls
   | CMapped dbg file ty views =>
       map (fun o => model_mview (mode_of dbg) file ty o && spec_mview file ty o) views
-  | CMGet dbg file opt off gets =>
-      match view_new (mode_of dbg) (if opt then TyOpt TyInt else TyInt) file off with
-      | VOk v => map (fun g => res_agree unit_eqb (touch_model (mode_of dbg) v 3 (fst g)) (snd g) && not9 (snd g)) gets
-      | _ => []
-      end
+  | CMGet dbg file opt probes =>
+      map (fun p => model_mget (mode_of dbg) file opt p && spec_mget p) probes
   | CDied _ _ => []
   end.
